@@ -245,6 +245,9 @@ pub fn generate(sink: &mut Sink, rng: &mut Rng, n: u64) {
         done += 1;
         let event = lang::gen_event(rng);
         let meta = lang::gen_metadata(rng);
+        if lang::risky_case(&src, &event) || lang::risky_case(&src, &meta) {
+            continue;
+        }
         if let Some(r) = sink.emit("o.c14", &[hex(src.as_bytes()), show_value(&event), show_value(&meta), rng.next().to_string()]) {
             sink.count(&format!("c14:{}", r.obs.last().cloned().unwrap_or_default()));
         }
